@@ -154,6 +154,18 @@ CHECKS = {
             "are exercised for panic-freedom by C12 rather than compiled; known unrepresentable shapes are attributed by "
             "(error codes, structural class).",
             "6/C01"),
+    "C08": ("exploration",
+            "exhaustive enumeration of records (<=2 members over a 24-atom rule-hitting alphabet x struct/union x 3 attributes) x "
+            "all 2^8 derive-option combinations x impl-debug/impl-partialeq; trait presence read from the syn inventory and compared "
+            "with an independent three-valued specification; hand-written impls executed",
+            "Every (record, option combination, trait) triple is compared with MUST-NOT / MUST-HAVE / FREE expectations computed "
+            "from the generator's own description of the record (floats vs Eq/Ord/Hash, raw pointers and 33-element arrays vs "
+            "Default, Rust unions, 13-parameter function pointers incl. typedef'd spellings, disabled options; plain data must get "
+            "every requested trait); Default/PartialEq/Debug impls are executed on zeroed and one-member-changed objects.",
+            "The specification is deliberately three-valued (non-plain attributes, mixed members and trait dependencies are FREE); "
+            "enum members are integers under the default enum style; C++ rules (destructors, vtables, templates) are exercised "
+            "through C07's fix-point hooks and C01's compile check rather than here.",
+            "6/C08"),
 }
 
 PENDING = {"C01"}  # built but unchanged-tree findings not yet triaged: not claimed until the quick tier is clean
